@@ -92,6 +92,9 @@ type parsedRing struct {
 
 var c04Ring parsedRing
 
+// c04Shared is the receive buffer shared by consecutive parses.
+var c04Shared []byte
+
 func (p *parsedRing) add(m util.Message, want *wire.N) {
 	s := &p.ring[p.n%len(p.ring)]
 	s.m, s.want = m, want
@@ -146,7 +149,13 @@ func c04One(r *ev.Run, n *wire.N, what string) string {
 		r.Violation(sig, msg+" ["+what+"] for "+shortModel(n), rep)
 		return sig
 	}
-	in := append([]byte{}, frame...)
+	// frames are received the way the stream receives them: into one reused buffer (a message
+	// that still refers to the buffer is overwritten by the next frame; C12 states this directly,
+	// here it shows as "an earlier message no longer exposes what was on its wire")
+	if cap(c04Shared) < len(frame) {
+		c04Shared = make([]byte, 0, 70000)
+	}
+	in := append(c04Shared[:0], frame...)
 	m, err, pn := safeParse(in)
 	if pn != nil {
 		r.Outcome("panic")
